@@ -30,7 +30,7 @@ from ..core import Ctx, load_corpus
 
 ID = "C19"
 LEVEL = "proof"
-STRENGTH = "partial"   # several clauses hold only under named guards (open findings F2, F3, F5, F6, F7, F8), see LEVEL_TEXT
+STRENGTH = "partial"   # several clauses hold only under named guards (open findings F3, F5, F6, F7, F8), see LEVEL_TEXT
 ENGINES = ["lean-model", "kopfsim", "pyextract"]
 TIE = ("S: real infinite_watch vs the Lean world machine, act by act, on seeded fault scripts; D: what the real namespace observer "
        "was fed (listing, listed items, events) and insights.namespaces after each item vs the Lean `evView`; A': the real orchestrator's "
@@ -46,9 +46,9 @@ LEVEL_TEXT = (
     "consumer_view_is_server_state (what the consumer was handed = the server's state at `since`, always), no_skip_inv, no_skip "
     "(at quiescence: the current state of every object), listing_yields_live, deliver_in_order, resume_point, relist_on_410 (both "
     "forms, run-level), respond_never_fails, unknown_error_raises, failed_is_final, fresh_list_on_resume, quiescence_reachable "
-    "(possibility under a cooperative environment; no fairness/liveness is proved); PARTIAL: paused_silent_partial (guard: no attempt "
-    "re-sent by api.request's retry loop; paused_retry_witness = open C19-F2, listings only; paused_no_watch_attempt: no watch request "
-    "is sent or re-sent while paused); LIMIT with witness: deleted_in_relist_gap_witness "
+    "(possibility under a cooperative environment; no fairness/liveness is proved), paused_silent (from the noticed pause on the "
+    "record of observations does not change at all: no request, no re-sent attempt, no item, no event; C19-F2 fixed by d8da165/64c8f5e); "
+    "LIMIT with witness: deleted_in_relist_gap_witness "
     "(open C19-F5). Cluster→insights (namespaces; observation.py, modelled as a consumer of the same watch machine that ignores "
     "listed items): PARTIAL insights_follow_cluster_partial (guard AllDelivered: every change since the observer's own listing went "
     "through the stream as an event; listed_namespace_ignored_witness = open C19-F8); the out-of-order application of events of two "
@@ -64,7 +64,7 @@ THEOREMS = [("Kopf.Props.C19", "Kopf.C19." + n) for n in [
     # one watch-stream, all adversary scripts
     "consumer_view_is_server_state", "no_skip_inv", "no_skip", "listing_yields_live", "deleted_in_relist_gap_witness",
     "deliver_in_order", "resume_point", "relist_on_410", "respond_never_fails", "unknown_error_raises", "failed_is_final",
-    "paused_silent_partial", "paused_retry_witness", "paused_no_watch_attempt", "paused_no_event", "pause_noticed_is_quiet",
+    "paused_silent", "pause_noticed_is_quiet",
     "fresh_list_on_resume", "quiescence_reachable",
     # cluster → insights (namespaces)
     "insights_follow_cluster_partial", "listed_namespace_ignored_witness",
@@ -94,8 +94,7 @@ ASSUMPTIONS = ["resource versions are modelled as naturals (Kubernetes: opaque s
                "bookmarks conform (since ≤ b ≤ current, nothing in scope in between) — a non-conforming bookmark is ignored by the model, the code would take it",
                "one call of api.request is one request of the model; attempts re-sent by its retry loop are the `retry` act (observed at the fake API); "
                "how many there are and after which delays is C12's subject",
-               "between the pause toggle and the moment the pause-waiter task has run (`notice`) requests may still go out; a listing answered "
-               "while paused is still yielded",
+               "between the pause toggle and the moment the pause-waiter task has run (`notice`) requests may still go out (no virtual duration)",
                "a resource keeps its scope (namespaced/cluster) over a history; operator mode (cluster-wide vs namespaced) is fixed per run",
                "peering absent (standalone or peering CRD not in the backbone): hence no whole-operator run ever pauses; the pause is exercised on "
                "infinite_watch directly (tie S); the meta-watchers (namespaces/CRDs) run with operator_paused=None and do list and watch while paused, by design",
@@ -147,7 +146,8 @@ def extract(ctx: Ctx) -> None:
 
 
 F1_SIG = {"site": "watching.continuous_watch", "shape": "HTTP 410 on the watch request is not treated as too-old: no re-list"}
-# the watch half was repaired in kopf d8da165 (api.stream's stopper callback); what remains is the listing, which has no stopper
+# C19-F2 is fixed: watch half in kopf d8da165 (api.stream's stopper callback), list half in 64c8f5e (listing raced with the
+# pause-waiter); the signature stays so that a regression is reported as a VIOLATION
 F2_SIG = {"site": "fetching.list_objs", "shape": "retry attempts of a list request begun before the pause are re-sent while paused"}
 F3_SIG = {"site": "orchestration.terminate_redundancies", "shape": "cluster-scoped watcher survives the removal of the last served namespace"}
 
@@ -300,6 +300,7 @@ def derive(obs: list) -> dict:
     expect_closed = False
     expect_cancel = False
     watch_pending = False
+    listing_handover = False
     first_attempt = False
     list_rv = 0
 
@@ -342,13 +343,15 @@ def derive(obs: list) -> dict:
             add(["notice"])
             expect_closed = stream_open
             stream_open = False
-            expect_cancel = watch_pending      # the stopper's callback cancels the pending watch request
+            expect_cancel = watch_pending      # the pending request (watch: stopper callback; list: race with the waiter) is cancelled
             watch_pending = False
+            if listing_handover:
+                anomalies.append("the pause was noticed between the listing's answer and its hand-over to the consumer")
         elif k == "req":
             absorb410 = False
             first_attempt = True
             expect_cancel = False
-            watch_pending = rec[1] == "watch"
+            watch_pending = True               # (any kind of request)
             out(["reqList"] if rec[1] == "list" else ["reqWatch", int(rec[2]) if rec[2] is not None else -1])
         elif k == "http":
             if first_attempt:
@@ -359,7 +362,7 @@ def derive(obs: list) -> dict:
         elif k == "rsp":
             kind, how, extra = rec[1], rec[2], rec[3]
             watch_pending = False
-            if expect_cancel and kind == "watch":
+            if expect_cancel:
                 expect_cancel = False
                 if how != "cancelled":
                     add(["respond"] if how in ("ok", "gone") else ["failReq", how if how in ("conn", "timeout", "tooMany", "fatal") else "timeout"])
@@ -370,6 +373,7 @@ def derive(obs: list) -> dict:
                 add(["respond"])
                 if kind == "list" and how == "ok":
                     list_rv = int((extra or {}).get("rv") or 0)
+                    listing_handover = True     # the listing task is done; the stream's task takes over a moment later
                 if kind == "watch" and how == "ok":
                     if (extra or {}).get("too_old"):
                         absorb410 = True
@@ -409,6 +413,7 @@ def derive(obs: list) -> dict:
         elif k == "yield":
             typ, name, rv = rec[1], rec[2], rec[3]
             if typ == "LISTED":
+                listing_handover = False
                 out(["listed", list_rv])
             elif typ is None:
                 out(["item", kid(name), int(rv)])
@@ -507,9 +512,9 @@ def oracle_stream(sc: dict, r: dict) -> list[tuple[str, dict]]:
                 if typ in ("ADDED", "MODIFIED", "DELETED", "BOOKMARK"):
                     fails.append((f"a {typ} event was yielded at t={ty} while paused since t={pauses[-1][0]}",
                                   {"site": "watching.streaming_block", "shape": "watch event yielded while paused"}))
-                elif typ is None and not any(f[1] is F2_SIG for f in fails):
-                    fails.append((f"the items of a listing were yielded at t={ty} while paused since t={pauses[-1][0]} "
-                                  "(the listing, begun before the pause, is not abandoned)", F2_SIG))
+                elif typ is None or typ == "LISTED":
+                    fails.append((f"a listing was handed to the consumer at t={ty} while paused since t={pauses[-1][0]}",
+                                  {"site": "watching.continuous_watch", "shape": "listing yielded while paused"}))
             if expect_raise:
                 fails.append(("an event was yielded after an unknown ERROR event: the error was skipped",
                               {"site": "watching.continuous_watch", "shape": "unknown ERROR event not raised"}))
@@ -551,7 +556,7 @@ def oracle_stream(sc: dict, r: dict) -> list[tuple[str, dict]]:
                 if first:
                     fails.append((f"a {a['kind']} request was issued at t={a['t']} while paused since t={p0}",
                                   {"site": "watching.streaming_block", "shape": "list/watch request issued while paused"}))
-                elif a["kind"] == "list":
+                elif a["kind"] == "list":       # fixed in kopf 64c8f5e: a regression is a plain violation (F2 is `fixed`)
                     fails.append((f"retry attempt of a list request re-sent at t={a['t']} while paused since t={p0}", F2_SIG))
                 else:
                     fails.append((f"retry attempt of a watch request re-sent at t={a['t']} while paused since t={p0}",
@@ -1188,7 +1193,7 @@ def search(ctx: Ctx, broken: list) -> None:
         items.append(("stream", gen_script(rng, 7_000_000 + i)))
     for i in range(ctx.budget(2000, 20000)):
         items.append(("adjust", gen_history(rng, 7_000_000 + i)))
-    open_sigs = [F2_SIG, F3_SIG, F5_SIG, F6_SIG, F7_SIG, F8_SIG]
+    open_sigs = [F3_SIG, F5_SIG, F6_SIG, F7_SIG, F8_SIG]
     for res in _run_items(items, jobs):
         for what, sig in res.get("fails", []):
             if sig not in open_sigs:
